@@ -318,6 +318,11 @@ class _Restart(BaseException):
     pass
 
 
+class DeadPath(BaseException):
+    """raised inside Explorer.decide when the current path condition is unsatisfiable (not an Exception: code under
+    analysis that catches Exception must not swallow it)."""
+
+
 class Explorer:
     """Depth-first path exploration by re-execution with a decision prefix."""
 
@@ -374,7 +379,9 @@ class Explorer:
             elif okF:
                 v = False
             else:
-                raise Inconclusive("infeasible path condition")
+                # the path condition itself is unsatisfiable: an earlier feasibility query timed out (unknown is treated as
+                # feasible, a sound over-approximation) and led down a branch no input can take - abandon this path
+                raise DeadPath()
             self.prefix.append(v)
         self.pos += 1
         c = t if v else z3.Not(t)
@@ -424,16 +431,22 @@ class Explorer:
                 self.open = []
                 self.pc = []
                 self.solver = self._new_solver()
+                dead = False
                 try:
                     out = fn()
                     exc = None
+                except DeadPath:
+                    dead = True
                 except Inconclusive:
                     raise
                 except Exception as e:  # the code under analysis raised on this path
                     out = None
                     exc = e
-                self.paths += 1
-                results.append((list(self.pc), out, exc))
+                if dead:
+                    self.dead_paths = getattr(self, "dead_paths", 0) + 1
+                else:
+                    self.paths += 1
+                    results.append((list(self.pc), out, exc))
                 for idx in self.open:
                     e = self.prefix[idx]
                     stack.append(self.prefix[:idx] + [False if isinstance(e, bool) else ("val", e[1], False)])
